@@ -72,6 +72,8 @@ pub enum TableOp {
     Diff(Vec<u8>),
     /// flags = DROP_TABLE
     Drop,
+    /// explicit flags byte and stream
+    Raw(u8, Vec<u8>),
 }
 
 pub fn table_keyed_patch(compat: [u32; 4], ops: &[(TagB, TableOp)], max_len_delta: i64) -> Vec<u8> {
@@ -108,6 +110,7 @@ fn table_keyed_patch_with(compat: [u32; 4], ops: &[(TagB, TableOp)], max_len: &d
             TableOp::Replace(b) => (1, b),
             TableOp::Diff(b) => (0, b),
             TableOp::Drop => (2, &[]),
+            TableOp::Raw(f, b) => (*f, b),
         };
         w.u8(flags);
         w.u32(max_len(stream.len()));
